@@ -237,6 +237,10 @@ def run(ctx):
         for i in range(4 if ctx.quick() else 40):
             cfg = tu.gen_config(ctx.rng)
             cfg["eps"] = ctx.rng.choice([0.01, 0.05, 0.2])
+            # the recorded solver calls are matched to the clusters by position, which needs in-order completion
+            # (found by the thorough tier, session 4: with a scripted out-of-order completion the check compared
+            # cluster k's MRF with another cluster's raw output - a false alarm of the check, not of the code)
+            cfg.pop("completion", None)
             res, tr, err, series = tu.execute(cfg, record_states=False, capture_kernel=False)
             if err is not None or tr is None:
                 ctx.count("floor_runs_raised")
